@@ -79,6 +79,10 @@ func genCase(r *rand.Rand, i int, tier string) Input {
 		return genFootnote(disp20[(i/n20)%n20], disp20[i%n20], []string{"", "block", "inline", "compact"}[i/(n20*n20)], shape)
 	}
 	i -= nFoot
+	if i < nSpans() {
+		return genSpans(i)
+	}
+	i -= nSpans()
 	if i < chain4 {
 		withText := i >= chain4/2
 		i %= chain4 / 2
@@ -90,13 +94,14 @@ func genCase(r *rand.Rand, i int, tier string) Input {
 func init() {
 	fw.Register(&fw.Prop{
 		ID: "C09",
-		Rule: "inputs: generated HTML documents whose elements carry one of 20 display values (block, inline, inline-block, list-item, table, inline-table, the 8 table-internal values, flex, inline-flex, grid, inline-grid, flow-root, none) × float (left, right, footnote with footnote-display block / inline / compact) × position × ::before/::after with display and float × list-style-position × caption-side, plus (random trees only) multi-keyword display spellings and inline list-item, HTML tables (colgroup/col span, colspan/rowspan incl. rowspan=0), replaced elements with children (svg, object, img). " +
-			"Enumerated exhaustively: every (parent, child, grandchild) display triple with and without surrounding text, every (parent, child, child) sibling triple with no / white-space / text separator, every (parent, child) pair with the child floated or absolutely positioned, every (element, pseudo-element) display pair, every caption-side combination of two captions of a table, every (parent display, footnote element display, footnote-display) combination of a footnote element in three shapes (between text, first with block and display:none children, nested in another footnote); thorough adds every 4-chain over the 12 table-related values. The rest are random trees of at most 40 elements (7 % of their elements are footnote elements, with any display incl. none, any position, in any context incl. tables, flex/grid containers, hidden and replaced ancestors, other footnotes, body). " +
+		Rule: "inputs: generated HTML documents whose elements carry one of 20 display values (block, inline, inline-block, list-item, table, inline-table, the 8 table-internal values, flex, inline-flex, grid, inline-grid, flow-root, none) × float (left, right, footnote with footnote-display block / inline / compact) × position × ::before/::after with display and float × list-style-position × caption-side, plus (random trees only) multi-keyword display spellings and inline list-item, HTML tables whose cells carry colspan / rowspan and whose <col> / <colgroup> carry span with values of the whole attribute-value family (small valid numbers mostly; also 0, negative, signed, zero-padded, white-space padded, empty / non-numeric, digits followed by other characters, the maxima 1000 / 65534 and beyond, more than 18 digits, non-ASCII white space and digits), replaced elements with children (svg, object, img). " +
+			"Enumerated exhaustively: every (parent, child, grandchild) display triple with and without surrounding text, every (parent, child, child) sibling triple with no / white-space / text separator, every (parent, child) pair with the child floated or absolutely positioned, every (element, pseudo-element) display pair, every caption-side combination of two captions of a table, every (parent display, footnote element display, footnote-display) combination of a footnote element in three shapes (between text, first with block and display:none children, nested in another footnote), every value of the 35-value span attribute list as colspan or rowspan of a cell (3 positions in a 3-group table, alone or with the other attribute = 2, on HTML table elements and on div elements with table display values), every (colspan, rowspan) pair of these values on one cell, every value as span of a <col> (first / last of its group) and of a <colgroup> without <col>, followed by further columns; thorough adds every 4-chain over the 12 table-related values. The rest are random trees of at most 40 elements (7 % of their elements are footnote elements, with any display incl. none, any position, in any context incl. tables, flex/grid containers, hidden and replaced ancestors, other footnotes, body). " +
 			"Footnotes: the footnote boxes are reached through the Footnote link of the ::footnote-call boxes met in the tree and must be listed in the footnotes output; they are put in a footnote area formed as layout does (CreateAnonymousBox over a block holding deep copies of them) and that area is walked with every clause; footnote_* counters tell how many were walked, how many display:none / hidden footnote elements were verified box-less. " +
+			"Span attributes (HTML 4.9.11 / 4.9.3 / 4.9.4, rules for parsing non-negative integers; model in spans.go): on every value a cell spans 1..1000 columns and 1..(rows left in its group) rows, takes the first free slot and shares none, a <col> / childless <colgroup> stands for 1..1000 columns and the columns after it are numbered accordingly; the exact Colspan / Rowspan / number of column boxes must equal the HTML value (colspan, span: error or 0 -> 1, > 1000 -> 1000; rowspan: error -> 1, 0 -> to the end of the group, > 65534 -> 65534) on every value except the four classes trailing_chars, huge, unicode_space and negative rowspan, where a difference is reported only (span_html_parse_deviation, report_only_disagreements); span_<attribute>_<class> counters tell how many attributes of each class were judged, span_values_exact_verified / span_values_range_only how many exactly / by range. " +
 			"A case is non-trivial when at least one element other than html/body is rendered, every clause held, and the observed tree has more boxes than the document has rendered elements (text, line, anonymous or wrapper boxes were generated and walked); distinct = distinct input.",
 		N: func(tier string) int {
 			a, b, c, d, e, f := famSizes(tier)
-			return a + b + c + d + e + f + nFoot
+			return a + b + c + d + e + f + nFoot + nSpans()
 		},
 		Gen: func(r *rand.Rand, i int, tier string) any { return genCase(r, i, tier) },
 		Check: func(raw json.RawMessage) fw.Result {
@@ -126,6 +131,14 @@ func init() {
 				"footnote_display_block": 3000, "footnote_display_inline": 2000, "footnote_calls_nested": 800,
 				"footnote_display_none_verified": 200, "footnote_hidden_verified": 800, "footnote_float_on_abspos": 200,
 				"footnotes_listed_without_call": 400, "footnote_specified_list-item": 100, "footnote_specified_table-cell": 300,
+				// span attribute family (colspan / rowspan / span over the whole attribute-value space)
+				"fam_spans": int64(nSpans()), "span_values_exact_verified": 8000, "span_values_range_only": 1000,
+				"span_colspan_valid": 2500, "span_colspan_zero": 150, "span_colspan_negative": 150, "span_colspan_over_max": 200,
+				"span_colspan_non_numeric": 300, "span_colspan_white_space": 100, "span_colspan_plus_sign": 50,
+				"span_rowspan_valid": 2500, "span_rowspan_zero": 800, "span_rowspan_over_max": 100, "span_rowspan_non_numeric": 300,
+				"span_rowspan_white_space": 100, "span_rowspan_negative": 150,
+				"span_span_valid": 500, "span_span_zero": 25, "span_span_negative": 20, "span_span_non_numeric": 40, "span_span_over_max": 12,
+				"col_span_checked": 800, "colgroup_span_checked": 400,
 			}
 		},
 		Assumptions: []string{
@@ -134,6 +147,8 @@ func init() {
 			"out-of-flow boxes are recognised from the box's own computed float/position",
 			"a table-internal child of a flex container is accepted either blockified (css-flexbox-1 §4) or, as webrender does, kept inside an anonymous table that is the flex item",
 			"run-in, ruby, display:contents and running() are not generated",
+			"span attributes: the oracle reads the generator's attribute values (the parsed DOM must carry the same strings, else the case is inconclusive); colspan / rowspan are generated on elements whose computed display is table-cell only, span on <col> / <colgroup> only (an anonymous cell or a column group of another element reading such an attribute is not judged); a <colgroup> has either a span attribute or <col> children, never both; on attribute values with characters after the digits, more than 18 digits, non-ASCII white space, and on a negative rowspan, webrender reads the attribute with a strict integer parser where HTML parses a prefix / clamps / rejects: the box tree stays well formed, the difference is reported, not judged; a ::before/::after with display table-column on a <colgroup span> makes the expected number of columns undefined (range only)",
+			"open finding F-C09-colgroup-span-lost-to-generated-content (matched by its own signature, stays in the generated domain: about 15 of the 12 000 random trees): <colgroup span=N> with ::before/::after content stands for 1 or 2 columns instead of N",
 			"footnotes (css-gcpm-3 §2): float:footnote is generated on elements other than the root, not on ::before/::after (webrender leaves such a pseudo-element in the flow; undefined in GCPM); BuildFormattingStructure returns footnote boxes before anonymous-box fix-up, so the check forms the footnote area itself the way layoutContext.updateFootnoteArea does (bo.CreateAnonymousBox over an anonymous block of the root box whose children are bo.Deepcopy of the footnote boxes reached through ::footnote-call links, nested footnotes in a further area); footnote-display:compact may give a block or an inline box (UA's choice per GCPM); a footnote element keeps the marker of a list-item display (blockified per CSS 2.1 §9.7); ::footnote-marker is not judged on replaced elements and <img>",
 			"which element a ::footnote-call box is attached to is not judged (webrender: the parent of the footnote element, counted as footnote_calls_on_parent_element); entries of the footnotes list that no call links (the call was removed with the content of a replaced element or by §17.2.1 rules 1.1/1.2; never laid out) are counted, not judged, unless their element is in a display:none subtree",
 		},
